@@ -33,6 +33,7 @@ type c01Pub struct {
 type c01Round struct {
 	Ops  []c01Op  `json:"ops"`
 	Pubs []c01Pub `json:"pubs"`
+	Warm int      `json:"warm,omitempty"` // the first publisher first sends this many messages one second apart (sustained gossip)
 }
 
 type c01Case struct {
@@ -252,6 +253,9 @@ func c01Gen(rt *rapid.T) c01Case {
 				}
 			}
 			r.Pubs = append(r.Pubs, c01Pub{Node: rapid.SampledFrom(cand).Draw(rt, "publisher"), N: rapid.IntRange(1, 2).Draw(rt, "burst")})
+		}
+		if rapid.IntRange(0, 2).Draw(rt, "warm") == 0 {
+			r.Warm = rapid.IntRange(11, 16).Draw(rt, "nwarm")
 		}
 	}
 	// round 0: roles and a random overlay
@@ -499,6 +503,25 @@ func c01RunInBubble(t *testing.T, c c01Case, res *vfResult) {
 		}
 		// publish
 		var sent []string
+		if r.Warm > 0 && len(r.Pubs) > 0 {
+			// more than ten heartbeats of traffic from one side before the messages that matter
+			th := handle(r.Pubs[0].Node)
+			if th == nil {
+				return
+			}
+			for k := 0; k < r.Warm; k++ {
+				seq++
+				data := fmt.Sprintf("r%d-n%d-w%d%s", ri, r.Pubs[0].Node, seq, pad)
+				if err := th.Publish(context.Background(), []byte(data)); err != nil {
+					res.violate("C01/publish-error", ri, "node %d: Publish failed: %v", r.Pubs[0].Node, err)
+					return
+				}
+				sent = append(sent, data)
+				s.wait(time.Second)
+			}
+			res.label("sustained-traffic-before")
+			// the later publishers of the round are other nodes where possible, so traffic now also flows the other way
+		}
 		for _, p := range r.Pubs {
 			th := handle(p.Node)
 			if th == nil {
